@@ -89,6 +89,10 @@ type updSpec struct {
 	Mut string // single corrupted field, "" = none
 	Pos int
 	Alt int
+
+	// Clock != 0 moves the client's clock next to the signature slot (by moving its genesis time: the current slot
+	// is the middle of slot sig-1 (1: the signature slot lies one slot in the future), sig (2) or sig+1 (3))
+	Clock int
 }
 
 // ---------------------------------------------------------------------------
